@@ -334,6 +334,20 @@ func main() {
 		}
 	}
 
+	// ------------------------------------------------ many redundant parentheses around one operand
+	for _, depth := range []int{8, 31, 40, 120} {
+		p := &fqlast.Program{Ret: fqlast.Arr(fqlast.Math("+", fqlast.Int(1), fqlast.Int(2)), fqlast.Str("x"))}
+		canon := `RETURN [1 + 2, "x"]`
+		co := run(canon, nil)
+		m.Evaluations++
+		ks := kase{Canon: canon, AST: p.Coq(), Fam: "deep-parentheses", Out: clip(outcomeKey(co), 200)}
+		o, c := strings.Repeat("(", depth), strings.Repeat(")", depth)
+		addAlt(&ks, co, "RETURN ["+o+"1"+c+" + 2, \"x\"]", "redundant-parentheses", nil)
+		addAlt(&ks, co, "RETURN [1 + 2, "+o+"\"x\""+c+"]", "redundant-parentheses", nil)
+		addAlt(&ks, co, "RETURN "+o+"[1 + 2, \"x\"]"+c, "redundant-parentheses", nil)
+		cases = append(cases, ks)
+	}
+
 	// ------------------------------------------------ echo: property names written as string literals
 	// (object keys and .name path segments) in each of the four quote styles
 	for _, nm := range []string{"a b", "é", "日本", "x-y", "", "k", "RETURN", "ß ü", "a.b", "😀", "1", "with space and ´"} {
